@@ -78,16 +78,9 @@ namespace Pistache
         spec.it_interval.tv_sec  = 0;
         spec.it_interval.tv_nsec = 0;
 
-        if (value.count() < 1000)
-        {
-            spec.it_value.tv_sec  = 0;
-            spec.it_value.tv_nsec = std::chrono::duration_cast<std::chrono::nanoseconds>(value).count();
-        }
-        else
-        {
-            spec.it_value.tv_sec  = std::chrono::duration_cast<std::chrono::seconds>(value).count();
-            spec.it_value.tv_nsec = 0;
-        }
+        const auto secs       = std::chrono::duration_cast<std::chrono::seconds>(value);
+        spec.it_value.tv_sec  = secs.count();
+        spec.it_value.tv_nsec = std::chrono::duration_cast<std::chrono::nanoseconds>(value - secs).count();
         TRY(timerfd_settime(fd_, 0, &spec, nullptr));
     }
 
